@@ -50,6 +50,9 @@ def w_eval(case, opts):
     from vf import engine
     _limit_as()
     o = {"tl": opts.get("tl", 40000), "ml": opts.get("ml", 30_000_000), "max_steps": opts.get("max_steps", 120000), "log": case.get("fam") == "generated-history"}
+    if str(case.get("ident", [""])[0]).startswith("monster"):
+        # building the structure alone takes tens of thousands of steps: the operation on it must still get its turn
+        o["tl"], o["max_steps"] = 2_000_000, 2_500_000
     rec = engine.run_js(case["src"], o, ctx=engine.new_context(o["tl"], o["ml"], quiet=False))     # the real console.log runs too
     out = {"o": rec["out"], "steps": rec.get("vm_steps", 0)}
     err = rec.get("err")
